@@ -119,16 +119,16 @@ class SetupRiemannProblem(object):
         pBe = self.bottom_expansion_arrays[0]
         bottom_state, top_state = self.bottom_state, self.top_state
         bottom_flow_angle, top_flow_angle = self.thetaB_rad, self.thetaT_rad
-        if (pBc[::-1][-1] < pressure_guess < pBc[::-1][0]):
+        if (pBc[::-1][-1] <= pressure_guess < pBc[::-1][0]):
             bottom_function = lambda x: bottom_flow_angle - self.compression_states(x, bottom_state)[0]
             morphology = 'S-C-'
-        elif (pBe[::-1][-1] < pressure_guess < pBe[::-1][0]):
+        elif (pBe[::-1][-1] < pressure_guess < pBc[::-1][-1]):
             bottom_function = lambda x: bottom_flow_angle - self.expansion_states(x, bottom_state)[0]
             morphology = 'R-C-'
-        if (pTe[0] < pressure_guess < pTe[-1]):
+        if (pTe[0] < pressure_guess < pTc[0]):
             top_function = lambda x: top_flow_angle + self.expansion_states(x, top_state)[0]
             morphology += 'R'
-        elif (pTc[0] < pressure_guess < pTc[-1]):
+        elif (pTc[0] <= pressure_guess < pTc[-1]):
             top_function = lambda x: top_flow_angle + self.compression_states(x, top_state)[0]
             morphology += 'S'
         self.morphology = morphology
@@ -154,6 +154,13 @@ class SetupRiemannProblem(object):
         top_function, bottom_function = \
             self.determine_state_functions(guess_pressure)
         self.pressure_solution = fsolve(lambda x: top_function(x) - bottom_function(x), guess_pressure)[0]
+        # the interpolated guess may lie on the other side of an initial
+        # pressure than the solution: classify the waves by the solution
+        morphology = self.morphology
+        top_function, bottom_function = \
+            self.determine_state_functions(self.pressure_solution)
+        if self.morphology != morphology:
+            self.pressure_solution = fsolve(lambda x: top_function(x) - bottom_function(x), self.pressure_solution)[0]
         self.deflection_angle_solution = top_function(self.pressure_solution)
     
     
